@@ -19,27 +19,36 @@ ObsOf(o) == [ev |-> o.ev, reg |-> ToSet(o.reg), gone |-> ToSet(o.gone),
              to |-> o.to, ok |-> o.ok]
 Matches == Ev.wf /\ last'.exp = ObsOf(Ev.obs)
 InC == Ev.args.c \in Conns
+Sg == Ev.args.s
+RxT(act) == Sg \in Segs /\ Rx(Ev.args.c, Sg, act)
+RxXT(act) == Sg \in Segs /\ RxX(Ev.args.c, Sg, act)
+RxFT(act) == Sg \in Segs /\ RxF(Ev.args.c, Sg, act)
+OwnT(act) == Sg = "own" /\ Rx(Ev.args.c, "own", act)
+OwnXT(act) == Sg = "own" /\ RxX(Ev.args.c, "own", act)
+NoT(act) == Sg = "own" /\ NoRead /\ act
 InD == Ev.args.d \in Dpids
 
-TrAccept     == IsEvent("Accept") /\ InC /\ Accept(Ev.args.c) /\ Matches
+TrAccept     == IsEvent("Accept") /\ InC /\ NoT(Accept(Ev.args.c)) /\ Matches
 TrNoise      == IsEvent("RxNoise") /\ InC /\ Ev.args.k \in NoiseKinds
-                /\ RxNoise(Ev.args.c, Ev.args.k) /\ Matches
+                /\ RxT(RxNoise(Ev.args.c, Ev.args.k)) /\ Matches
 TrFeatures   == IsEvent("RxFeatures") /\ InC /\ InD
-                /\ RxFeatures(Ev.args.c, Ev.args.d) /\ Matches
+                /\ RxFT(RxFeatures(Ev.args.c, Ev.args.d)) /\ Matches
 TrBarrier    == IsEvent("RxBarrier") /\ InC /\ Ev.args.k \in {"match", "other"}
-                /\ RxBarrier(Ev.args.c, Ev.args.k) /\ Matches
-TrReject     == IsEvent("RxBarrierReject") /\ InC /\ RxBarrierReject(Ev.args.c) /\ Matches
+                /\ (IF Ev.args.k = "match" THEN RxXT(RxBarrier(Ev.args.c, Ev.args.k))
+                    ELSE RxT(RxBarrier(Ev.args.c, Ev.args.k))) /\ Matches
+TrReject     == IsEvent("RxBarrierReject") /\ InC /\ OwnXT(RxBarrierReject(Ev.args.c)) /\ Matches
 TrErr        == IsEvent("RxErr") /\ InC /\ Ev.args.k \in ErrKinds
-                /\ RxErr(Ev.args.c, Ev.args.k) /\ Matches
+                /\ (IF Ev.args.k = "xid" THEN RxT(RxErr(Ev.args.c, Ev.args.k))
+                    ELSE RxXT(RxErr(Ev.args.c, Ev.args.k))) /\ Matches
 TrPortStatus == IsEvent("RxPortStatus") /\ InC /\ Ev.args.p \in Ports
-                /\ RxPortStatus(Ev.args.c, Ev.args.p) /\ Matches
-TrEchoFail   == IsEvent("RxEchoFail") /\ InC /\ RxEchoFail(Ev.args.c) /\ Matches
+                /\ RxT(RxPortStatus(Ev.args.c, Ev.args.p)) /\ Matches
+TrEchoFail   == IsEvent("RxEchoFail") /\ InC /\ OwnT(RxEchoFail(Ev.args.c)) /\ Matches
 TrEchoFailThen == IsEvent("RxEchoFailThen") /\ InC /\ Ev.args.k \in {"match", "unsup"}
-                /\ RxEchoFailThen(Ev.args.c, Ev.args.k) /\ Matches
-TrDisconnect == IsEvent("Disconnect") /\ InC /\ Disconnect(Ev.args.c) /\ Matches
-TrClose      == IsEvent("Close") /\ InC /\ Close(Ev.args.c) /\ Matches
-TrSendTo     == IsEvent("SendTo") /\ InD /\ SendTo(Ev.args.d) /\ Matches
-TrSendToFail == IsEvent("SendToFail") /\ InD /\ SendToFail(Ev.args.d) /\ Matches
+                /\ OwnXT(RxEchoFailThen(Ev.args.c, Ev.args.k)) /\ Matches
+TrDisconnect == IsEvent("Disconnect") /\ InC /\ NoT(Disconnect(Ev.args.c)) /\ Matches
+TrClose      == IsEvent("Close") /\ InC /\ NoT(Close(Ev.args.c)) /\ Matches
+TrSendTo     == IsEvent("SendTo") /\ InD /\ NoT(SendTo(Ev.args.d)) /\ Matches
+TrSendToFail == IsEvent("SendToFail") /\ InD /\ NoT(SendToFail(Ev.args.d)) /\ Matches
 
 TrNext == \/ TrAccept \/ TrNoise \/ TrFeatures \/ TrBarrier \/ TrReject \/ TrErr
           \/ TrPortStatus \/ TrEchoFail \/ TrEchoFailThen \/ TrDisconnect \/ TrClose
